@@ -88,21 +88,21 @@ Theorem C08_prefix_fact_for_framed_decoders :
 Proof. exact (fun depth data ser parse0 H => framed_prefix depth data ser parse0 H). Qed.
 Print Assumptions C08_prefix_fact_for_framed_decoders.
 
-(* non-vacuity: the premises are satisfiable (toy serialiser: n is written as an opening brace, n ones, a closing brace), a
-   save of 3 over 2 has crash states in which the temporary file is partially written and in which the data file is missing,
-   and the theorem's conclusion is met there *)
+(* non-vacuity: the premises are satisfiable (toy serialiser: n is written as an opening brace, n ones, a closing brace); a
+   save of 3 over 2 has crash states that restart with 2, crash states that restart with 3 and crash states in which some
+   file holds a two-byte prefix of the payload; all of them meet the theorem's conclusion *)
 Example C08_nonvacuous :
   (forall n, toy_parse (toy_ser n) = Some n) /\ toy_parse [] = None
   /\ (forall n k, (0 < k < List.length (toy_ser n))%nat -> toy_parse (firstn k (toy_ser n)) = None)
   /\ let s := mkfs (Some (toy_ser 2)) None None in
+     let cs := crash_states_c (toy_ser 3) true save_prog 0 s in
+     let loads n s' := match load_c nat toy_parse O true load_prog s' with LOk m => Nat.eqb m n | _ => false end in
+     let partial (f : option bytes) := match f with Some [123; 49] => true | _ => false end in
      holds nat toy_ser O true 2%nat s
-     /\ In (mkfs (Some (toy_ser 2)) None (Some [123; 49])) (crash_states_c (toy_ser 3) true save_prog 0 s)
-     /\ In (mkfs None (Some (toy_ser 2)) (Some (toy_ser 3))) (crash_states_c (toy_ser 3) true save_prog 0 s)
-     /\ forallb (fun s' => match load_c nat toy_parse O true load_prog s' with
-                           | LOk n => Nat.eqb n 2 || Nat.eqb n 3 | _ => false end)
-                (crash_states_c (toy_ser 3) true save_prog 0 s) = true
-     /\ List.length (crash_states_c (toy_ser 3) true save_prog 0 s) = 15%nat.
+     /\ existsb (loads 2%nat) cs = true /\ existsb (loads 3%nat) cs = true
+     /\ existsb (fun s' => partial (fdata s') || partial (fbackup s') || partial (ftemp s')) cs = true
+     /\ forallb (fun s' => loads 2%nat s' || loads 3%nat s') cs = true.
 Proof.
   split; [exact toy_parse_ser|]. split; [exact toy_parse_nil|]. split; [exact toy_parse_prefix|].
-  split; [left; reflexivity|]. vm_compute. repeat split; auto 20.
+  split; [left; reflexivity|]. vm_compute. repeat split.
 Qed.
